@@ -18,8 +18,12 @@ from .astutil import walk_shallow
 
 
 class CFG:
-    def __init__(self, fn):
+    def __init__(self, fn, split=False):
+        """split: short-circuit tests (`a and b`, `a or b`, `not (..)` around them) of If/While get one ("COND", expr, stmt)
+        node per operand, so that `if a and b: X` and `if a: if b: X` have the same graph.  The If/While head then has a
+        single unlabelled edge to the first operand; use the polarity-independent queries (cond_edges, only_when, ..)."""
         self.fn = fn
+        self.split = split
         self.stmt = {}
         self.succ = collections.defaultdict(set)
         self.pred = collections.defaultdict(set)
@@ -70,25 +74,60 @@ class CFG:
             preds = self._block(fb, preds, fl, fh, ff)
         return preds
 
+    @staticmethod
+    def _is_compound_test(e):
+        while isinstance(e, ast.UnaryOp) and isinstance(e.op, ast.Not):
+            e = e.operand
+        return isinstance(e, ast.BoolOp)
+
+    def _cond(self, e, preds, handlers, owner):
+        """short-circuit evaluation of a test: -> (ends on which it is true, ends on which it is false)"""
+        if isinstance(e, ast.BoolOp):
+            is_and = isinstance(e.op, ast.And)
+            cont, other = preds, []
+            for v in e.values:
+                t, f = self._cond(v, cont, handlers, owner)
+                if is_and:
+                    cont, other = t, other + f
+                else:
+                    cont, other = f, other + t
+            return (cont, other) if is_and else (other, cont)
+        if isinstance(e, ast.UnaryOp) and isinstance(e.op, ast.Not) and self._is_compound_test(e.operand):
+            t, f = self._cond(e.operand, preds, handlers, owner)
+            return f, t
+        n = self._new(("COND", e, owner))
+        self._link(preds, n)
+        if self._may_raise(e):
+            self._exc(n, handlers)
+        return [(n, 'T')], [(n, 'F')]
+
     def _statement(self, s, preds, loop, handlers, finals):
         if isinstance(s, ast.If):
             t = self._new(s)
             self._link(preds, t)
-            if self._may_raise(s.test):
-                self._exc(t, handlers)
-            a = self._block(s.body, [(t, 'T')], loop, handlers, finals)
-            b = self._block(s.orelse, [(t, 'F')], loop, handlers, finals) if s.orelse else [(t, 'F')]
+            if self.split and self._is_compound_test(s.test):
+                tends, fends = self._cond(s.test, [(t, None)], handlers, s)
+            else:
+                if self._may_raise(s.test):
+                    self._exc(t, handlers)
+                tends, fends = [(t, 'T')], [(t, 'F')]
+            a = self._block(s.body, tends, loop, handlers, finals)
+            b = self._block(s.orelse, fends, loop, handlers, finals) if s.orelse else fends
             return a + b
         if isinstance(s, (ast.For, ast.AsyncFor, ast.While)):
             h = self._new(s)
             self._link(preds, h)
-            if self._may_raise(s.iter if not isinstance(s, ast.While) else s.test):
-                self._exc(h, handlers)
+            if self.split and isinstance(s, ast.While) and self._is_compound_test(s.test):
+                tends, fends = self._cond(s.test, [(h, None)], handlers, s)
+            else:
+                if self._may_raise(s.iter if not isinstance(s, ast.While) else s.test):
+                    self._exc(h, handlers)
+                tends, fends = [(h, 'T')], [(h, 'F')]
             brk = []
-            body_end = self._block(s.body, [(h, 'T')], (h, brk, len(finals)), handlers, finals)
+            body_end = self._block(s.body, tends, (h, brk, len(finals)), handlers, finals)
             self._link(body_end, h)
             infinite = isinstance(s, ast.While) and isinstance(s.test, ast.Constant) and s.test.value is True
-            out = [] if infinite else [(h, 'F')]
+            out = [] if infinite else fends
             if s.orelse:
                 out = self._block(s.orelse, out, loop, handlers, finals)
             return out + brk
@@ -191,7 +230,7 @@ class CFG:
             for (y, lab) in self.succ[x]:
                 if y in avoid_nodes or (x, y, lab) in avoid_edges:
                     continue
-                if explicit_only and lab == 'exc' and isinstance(self.stmt[x], ast.AST) \
+                if explicit_only and lab == 'exc' and _is_code(self.stmt[x]) \
                         and not isinstance(self.stmt[x], ast.Raise):
                     continue
                 if y not in seen:
@@ -211,8 +250,10 @@ class CFG:
     def head_expr(self, n):
         """the expression evaluated AT node n (test of If/While, iter of For, items of With, else the statement)"""
         s = self.stmt[n]
+        if isinstance(s, tuple) and s[0] == "COND":
+            return [s[1]]
         if isinstance(s, (ast.If, ast.While)):
-            return [s.test]
+            return [] if (self.split and self._is_compound_test(s.test)) else [s.test]
         if isinstance(s, (ast.For, ast.AsyncFor)):
             return [s.iter]
         if isinstance(s, (ast.With, ast.AsyncWith)):
@@ -276,38 +317,49 @@ class CFG:
         r = self.reach(self.entry, avoid_edges=avoid)
         return [t for t in targets if t in r]
 
+    def reach_feasible_via(self, via, avoid_nodes=(), explicit_only=False):
+        """nodes reachable from ENTRY on a feasible path AFTER the path has passed one of the nodes `via`"""
+        via = set(via)
+        return {n for (n, tag) in self._feasible([(self.entry, frozenset())], set(avoid_nodes), (), explicit_only, via) if tag}
+
     def reach_feasible(self, starts, avoid_nodes=(), avoid_edges=(), explicit_only=False):
+        if isinstance(starts, int):
+            starts = [starts]
+        return {n for (n, tag) in self._feasible([(st, frozenset()) for st in starts if st not in set(avoid_nodes)],
+                                                 set(avoid_nodes), avoid_edges, explicit_only, None)}
+
+    def _feasible(self, init, avoid_nodes, avoid_edges, explicit_only, via):
         """like reach(), but paths contradicting what is known about local sentinels are dropped: after `x = None`
         (or `x = <constant>`) the branch of a later `if x is None` / `if x` / `if not x` that contradicts it is not
         followed until x is assigned again.  Only plain local names are tracked."""
-        if isinstance(starts, int):
-            starts = [starts]
-        avoid_nodes = set(avoid_nodes)
         seen = set()
-        work = [(st, frozenset()) for st in starts if st not in avoid_nodes]
+        work = [(st, f, False) for (st, f) in init]
         out = set()
         while work:
-            x, facts = work.pop()
-            if (x, facts) in seen:
+            x, facts, tag = work.pop()
+            if (x, facts, tag) in seen:
                 continue
-            seen.add((x, facts))
-            out.add(x)
+            seen.add((x, facts, tag))
+            out.add((x, tag))
+            if via is not None and x in via:
+                tag = True
             s = self.stmt[x]
             for (y, lab) in self.succ[x]:
                 if y in avoid_nodes or (x, y, lab) in avoid_edges:
                     continue
-                if explicit_only and lab == 'exc' and isinstance(s, ast.AST) and not isinstance(s, ast.Raise):
+                if explicit_only and lab == 'exc' and _is_code(s) and not isinstance(s, ast.Raise):
                     continue
                 f2 = dict(facts)
-                if isinstance(s, (ast.If, ast.While)) and lab in ('T', 'F'):
+                test_e = s[1] if (isinstance(s, tuple) and s[0] == "COND") else (s.test if isinstance(s, (ast.If, ast.While)) else None)
+                if test_e is not None and lab in ('T', 'F'):
                     dead = False
                     for name, val in facts:
                         isname = (lambda e, name=name: isinstance(e, ast.Name) and e.id == name)
-                        tn, fn_ = truth_on_branch(s.test, none_atom(isname))
+                        tn, fn_ = truth_on_branch(test_e, none_atom(isname))
                         known_none = tn if lab == 'T' else fn_
                         if known_none is not None and known_none != (val == 'none'):
                             dead = True
-                        tt, tf = truth_on_branch(s.test, truthy_atom(isname))
+                        tt, tf = truth_on_branch(test_e, truthy_atom(isname))
                         known_true = tt if lab == 'T' else tf
                         if known_true is True and val in ('none', 'falsy'):
                             dead = True
@@ -322,7 +374,7 @@ class CFG:
                             and isinstance(s.value, ast.Constant):
                         v = s.value.value
                         f2[s.targets[0].id] = 'none' if v is None else ('truthy' if v else 'falsy')
-                work.append((y, frozenset(f2.items())))
+                work.append((y, frozenset(f2.items()), tag))
         return out
 
     # -- polarity-independent guards -------------------------------------------
@@ -332,8 +384,13 @@ class CFG:
         None otherwise; `not`, `and`, `or` around it are understood (truth_on_branch)."""
         out = []
         for n, s in self.stmt.items():
-            if isinstance(s, (ast.If, ast.While)):
-                vt, vf = truth_on_branch(s.test, atom)
+            test = None
+            if isinstance(s, tuple) and s[0] == "COND":
+                test = s[1]
+            elif isinstance(s, (ast.If, ast.While)) and not (self.split and self._is_compound_test(s.test)):
+                test = s.test
+            if test is not None:
+                vt, vf = truth_on_branch(test, atom)
                 for (y, lab) in self.succ[n]:
                     if lab == 'T' and vt is value:
                         out.append((n, y, lab))
@@ -378,6 +435,10 @@ class CFG:
         if isinstance(s, tuple):
             s = s[1]
         return getattr(s, "lineno", 0)
+
+
+def _is_code(s):
+    return isinstance(s, ast.AST) or (isinstance(s, tuple) and s[0] == "COND")
 
 
 def _stored_simple(s):
@@ -435,19 +496,33 @@ def truthy_atom(pred):
     return atom
 
 
+_MIRROR = {ast.Lt: ast.Gt, ast.Gt: ast.Lt, ast.LtE: ast.GtE, ast.GtE: ast.LtE, ast.Eq: ast.Eq, ast.NotEq: ast.NotEq,
+           ast.Is: ast.Is, ast.IsNot: ast.IsNot}
+
+
 def cmp_atom(left_pred, right_pred, pos_ops=(ast.Eq,), neg_ops=(ast.NotEq,), symmetric=True):
-    """atom for a comparison `L op R` (operands in either order when symmetric)"""
+    """atom for a comparison `L op R`; with the operands swapped the mirrored operator counts (a < b  ==  b > a)"""
     def atom(x):
         if isinstance(x, ast.Compare) and len(x.ops) == 1:
             l, r = x.left, x.comparators[0]
-            hit = (left_pred(l) and right_pred(r)) or (symmetric and left_pred(r) and right_pred(l))
-            if hit:
-                if isinstance(x.ops[0], tuple(pos_ops)):
-                    return True
-                if isinstance(x.ops[0], tuple(neg_ops)):
-                    return "neg"
+            op = type(x.ops[0])
+            if left_pred(l) and right_pred(r):
+                pass
+            elif symmetric and left_pred(r) and right_pred(l) and op in _MIRROR:
+                op = _MIRROR[op]
+            else:
+                return None
+            if op in tuple(pos_ops):
+                return True
+            if op in tuple(neg_ops):
+                return "neg"
         return None
     return atom
+
+
+def ge_atom(left_pred, right_pred):
+    """L >= R  (also R <= L; negations L < R, R > L)"""
+    return cmp_atom(left_pred, right_pred, (ast.GtE,), (ast.Lt,))
 
 
 def none_atom(pred):
@@ -460,9 +535,9 @@ def in_atom(item_pred, container_pred):
     return cmp_atom(item_pred, container_pred, (ast.In,), (ast.NotIn,), symmetric=False)
 
 
-def build(fn):
+def build(fn, split=False):
     try:
-        return CFG(fn)
+        return CFG(fn, split)
     except NotImplementedError as e:
         from .srcmodel import AnalysisError
         raise AnalysisError("cannot build a CFG for %s: %s" % (fn.name, e))
